@@ -216,6 +216,18 @@ static void validate(PTree *t, const Ref *ref, const char *opk)
     if (bad == 2) { snprintf(s, sizeof s, "parent-link/%s", opk); viol("C12", s, "a parent link is inconsistent with the child links after %s: %s", opk, cb); }
     cnt = inorder(t->root, ks, vs, 0);
     if (cnt != n) { snprintf(s, sizeof s, "content/%s", opk); viol("C12", s, "tree holds %d nodes, reference map holds %d (dump %s)", cnt, n, cb); return; }
+    /* no object that is still stored in the tree (and that lookup / foreach hand out) may have been given to a destroy notifier */
+    for (i = 0; i < cnt && i < MAXK; i++) {
+        Obj *o[2]; int w;
+        o[0] = ks[i]; o[1] = vs[i];
+        for (w = 0; w < 2; w++) if (o[w] >= pool && o[w] < pool + pool_n && o[w]->destroyed) {
+            snprintf(s, sizeof s, "live-pair-destroyed/%s", opk);
+            viol("C12", s, "the pair of rank %d is still in the tree (lookup and foreach return it) but its %s has been passed to the destroy notifier; dump %s", o[w]->rank, w ? "value" : "key", cb);
+            snprintf(s, sizeof s, "destroyed-object-still-stored/%s", opk);
+            viol("C14", s, "the %s of rank %d (serial %d) was passed to its destroy notifier although it did not leave the tree; dump %s", w ? "value" : "key", o[w]->rank, o[w]->serial, cb);
+            return;
+        }
+    }
     for (i = 0; i < K; i++) if (ref->key[i]) {
         if (ks[j] != ref->key[i] || vs[j] != ref->val[i]) {
             snprintf(s, sizeof s, "content/%s", opk);
@@ -302,7 +314,7 @@ static int children_class(PTree *t, int rank)
     return (n->left != NULL) + (n->right != NULL);
 }
 
-static void expect_log(Obj **want, int nwant, const char *opk, const char *cls)
+static void expect_log_i(Obj **want, int nwant, const char *opk, const char *cls)
 {
     int i, j; char s[96];
     int used[MAXLOG] = {0};
@@ -324,7 +336,15 @@ static void expect_log(Obj **want, int nwant, const char *opk, const char *cls)
              o && o->is_value ? "value" : "key", o ? o->rank : -1, o ? o->serial : -1, o && o->destroyed ? ", already destroyed before" : "");
         return;
     }
-    for (j = 0; j < dlog_n; j++) if (dlog[j]) { if (dlog[j]->destroyed) { viol("C14", s, "%s: object destroyed twice", opk); } dlog[j]->destroyed++; }
+    for (j = 0; j < dlog_n; j++) if (dlog[j] && dlog[j]->destroyed) viol("C14", s, "%s: object destroyed twice", opk);
+}
+/* the objects handed to a notifier are marked destroyed whatever the verdict on the log was, so that validate() can tell
+ * when a pair that is still in the tree (and that lookup / foreach hand out) has been destroyed */
+static void expect_log(Obj **want, int nwant, const char *opk, const char *cls)
+{
+    int j;
+    expect_log_i(want, nwant, opk, cls);
+    for (j = 0; j < dlog_n; j++) if (dlog[j]) dlog[j]->destroyed++;
 }
 
 /* apply one op to (tree, ref); checks the transition oracles.  verbose for replay */
